@@ -79,7 +79,8 @@ prop("C02", "from_bytes accepts exactly well-formed encodings, consistent view",
 prop("C05", "size() is the exact extent",
      "From every well-formed image up to the bound: size() equals the reference extent, is <= the mapped length, and re-mapping the first size() bytes yields the same content and size(). After mutations: the step harnesses of C11/C12 assert the same on their post-states.",
      OUT_RO + ["sequences of mutations are covered one step at a time from an arbitrary valid state (C11, C12, C18 harnesses)"],
-     ro("size", "size() == reference extent <= n; from_bytes(&s[..size()]) gives the same content and size()"))
+     ro("size", "size() == reference extent <= n; from_bytes(&s[..size()]) gives the same content and size()")
+     + [M("FlatVec_size")])
 
 prop("C06", "framing contract",
      "For every tight valid message m (reference extent == length) up to the bound: every proper prefix is rejected as InsufficientSize or, only when nothing but padding is missing, accepted with the same content; m followed by arbitrary bytes validates with the same content and size().",
@@ -181,7 +182,10 @@ IO_B = {"V_U8": ("FlatVec<u8,u8>", 6, 3, 1200), "U_E2": ("unsized enum{A,B(Bool)
         "SS2": ("sized struct{u16,u8} (align 2, padding)", 6, 2, 600), "U_S1": ("unsized struct{u8,u16,FlatVec<u8,u8>} (align 2, padded)", 8, 4, 3600),
         "X_U8": ("FlexVec<u8,u8>", 5, 2, 5400), "V_U8L32": ("FlatVec<u8,u32> (align 4)", 8, 4, 3600)}
 IO_A = {"V_U8": ("FlatVec<u8,u8>", 5, 2, 3, 1800), "U_E2": ("unsized enum{A,B(Bool),C(FlatVec<u8,u8>)}", 5, 2, 3, 1800),
-        "SS2": ("sized struct{u16,u8}", 6, 2, 3, 1200), "U_S1": ("unsized struct{u8,u16,FlatVec<u8,u8>}", 8, 2, 2, 3600)}
+        "SS2": ("sized struct{u16,u8}", 6, 2, 3, 2400), "U_S1": ("unsized struct{u8,u16,FlatVec<u8,u8>}", 8, 2, 2, 3600),
+        "V_U8_q": ("FlatVec<u8,u8>", 5, 2, 2, 1500), "SS2_q": ("sized struct{u16,u8}", 6, 2, 2, 1500),
+        "U_E2_q": ("unsized enum{A,B(Bool),C(FlatVec<u8,u8>)}", 5, 2, 2, 1500)}
+IO_AQUICK = ["V_U8_q", "SS2_q"]
 IO_QUICK = ["V_U8", "SS2"]
 IO_ASSUME = ["the receiver's pre-state is constructed through the `verif` hooks of flatty-io (window, contents); the window invariant (start multiple of ALIGN, start <= end <= capacity, empty window == 0..0) is assumed for the pre-state and re-asserted on the post-state",
              "pipes are solver-driven models: every read/write chunk size, failure and Pending placement is symbolic (harness/src/pipes.rs); io::Error values are mem::forget-ed (their drop glue is not the subject)",
@@ -197,7 +201,7 @@ def io_b(fam, what, quick=IO_QUICK, tiers_all=None):
     return out
 
 
-def io_a(fam, what, quick=IO_QUICK):
+def io_a(fam, what, quick=IO_AQUICK):
     out = []
     for m, (doc, cap, r, pb, t) in IO_A.items():
         tcap = t if fam.startswith("recv") else max(300, t // 4)
@@ -226,19 +230,23 @@ prop("C09", "IO faults surface as errors",
      "The step harnesses with faults enabled: each read may fail with one of four io::ErrorKinds, each write may fail or accept 0 bytes. Asserted: no pipe call follows a failed one within a send/recv (bounded calls, no retry loop), the sink holds a proper prefix of the image, poisoned <=> a partial message is in the stream, a failed read leaves buffered ++ unread == stream (nothing lost or duplicated, so a retried recv is again an instance of the step).",
      OUT_IO + ["io::ErrorKind values other than Other, Interrupted, WouldBlock, BrokenPipe"],
      io_b("recv_faults", "recv step with failing reads") + io_b("send_faults", "send step with failing / zero-length writes")
-     + io_a("recv_faults", "async recv step with failing reads", quick=["V_U8"]) + io_a("send_faults", "async send step with failing / zero-length writes", quick=["V_U8"]),
+     + io_a("recv_faults", "async recv step with failing reads", quick=["V_U8_q"]) + io_a("send_faults", "async send step with failing / zero-length writes", quick=["V_U8_q"]),
      IO_ASSUME)
 
 prop("C10", "receiver fed arbitrary bytes",
      "The recv step harness without any assumption on the stream: arbitrary buffer contents and arbitrary further bytes in every chunking. Asserted: terminates with message / Parse / Read(OutOfMemory) / Closed, no panic, bounded reads; a delivered message is the reference decoding of the bytes received so far and its size() <= bytes received; window stays inside the buffer; complete-but-malformed content => Parse.",
      OUT_IO,
-     io_b("recv_hostile", "recv step on arbitrary bytes", quick=["V_U8", "U_E2"]) + io_a("recv_hostile", "async recv step on arbitrary bytes", quick=["U_E2"]),
+     io_b("recv_hostile", "recv step on arbitrary bytes", quick=["V_U8", "U_E2"]) + io_a("recv_hostile", "async recv step on arbitrary bytes", quick=["U_E2_q"])
+     + ro("accept", "recv hands out from_bytes_unchecked(buffer) after validate(buffer) succeeded: for message types more aligned than their tail, validate Ok => the view is a valid value inside the received bytes", shapes_quick=["U_S1", "U_S2", "U_E1"], shapes_thorough=["U_E3", "U_E4"])
+     + ro("size", "the guard's drop skips size() bytes: size() <= bytes received, for padded message types", shapes_quick=["U_S2", "U_E1", "V_U8L32"], shapes_thorough=["U_S1", "V_A3"]),
      IO_ASSUME)
 
 # ---------------------------------------------------------------- histories by one step
 VSTEP = {"V_U8_st": ("FlatVec<u8,u8>", 7, 900), "V_U16_st": ("FlatVec<u16,u8>", 9, 1200), "V_U8L32_st": ("FlatVec<u8,u32>", 10, 1200),
          "V_A3_st": ("FlatVec<[u8;3],u16>", 10, 1800), "V_P_st": ("FlatVec<le::U16,le::U16>", 8, 1200)}
-XSTEP = {"X_U8_st": ("FlexVec<u8,u8>", 6, 2400), "X_U16_st": ("FlexVec<u16,u16>", 8, 3600), "X_P_st": ("FlexVec<le::U16,le::U16>", 8, 3600)}
+XSTEP = {"X_U8_st": ("FlexVec<u8,u8>", 5, 1500), "X_U8_st6": ("FlexVec<u8,u8>", 6, 3600), "X_U16_st": ("FlexVec<u16,u16>", 6, 3600), "X_P_st": ("FlexVec<le::U16,le::U16>", 6, 3600)}
+XOPS = ["push", "push_default", "pop", "truncate", "clear", "edit"]
+XVOPS = ["push", "pop", "truncate", "edit"]
 STEP_ASSUME = ["a history is covered by one step from an arbitrary valid image (every validating image is a reachable state and every reachable state must validate, which each step re-asserts); the composition over steps is a paper argument"]
 
 
@@ -247,9 +255,14 @@ def vsteps(what, quick=("V_U8_st", "V_U16_st", "V_P_st")):
               what, tier="quick" if m in quick else "thorough") for m, (doc, n, t) in VSTEP.items()]
 
 
-def xsteps(what, quick=("X_U8_st",)):
-    return [H("step::%s::flex_step" % m, t, 14, "every valid image <= %d bytes x every operation (push, push_default, pop, truncate, clear, edit item i) with arbitrary arguments; %s" % (n, doc),
-              what, tier="quick" if m in quick else "thorough") for m, (doc, n, t) in XSTEP.items()]
+def xsteps(what, quick=("X_U8_st",), ops=None):
+    return [H("step::%s::%s" % (m, op), t, 14, "every valid image <= %d bytes x %s with arbitrary arguments; %s" % (n, op, doc),
+              what, tier="quick" if m in quick else "thorough") for m, (doc, n, t) in XSTEP.items() for op in (ops or XOPS)]
+
+
+def xvsteps(what, ops=None, tier="thorough"):
+    return [H("step::X_V_st::%s" % op, 3600, 16, "every valid image <= 6 bytes x %s (push of a FlatVec of 0..2 items / pop / truncate / push into item i); FlexVec<FlatVec<u8,u8>,u8>" % op,
+              what, tier=tier) for op in (ops or XVOPS)]
 
 
 prop("C11", "FlatVec/FlatString behave as capacity-bounded Vec/String",
@@ -265,7 +278,7 @@ prop("C12", "FlexVec behaves as a sequence of items",
      "From every valid image up to the bound, one arbitrary operation (push, push_default, pop, truncate(n), clear, edit of item i through iter_mut) is compared with a sequence model: len, is_empty, items in order, size(), validity and re-mapping; pop removes exactly the last, truncate keeps min(n,len), editing one item leaves the others.",
      ["images longer than the bound (at most 6 items)", "item types beyond u8, u16, le::U16 (unsized items are covered read-only by C02/C05 and constructing by C03)"],
      xsteps("FlexVec step vs sequence model")
-     + [H("step::X_V_st::flexv_step", 3600, 16, "every valid image <= 7 bytes x push(FlatVec of 0..2 items) / pop / truncate / clear / push into item i; FlexVec<FlatVec<u8,u8>,u8>", "FlexVec of unsized items vs sequence-of-sequences model", tier="thorough")],
+     + xvsteps("FlexVec of unsized items vs sequence-of-sequences model"),
      STEP_ASSUME)
 
 prop("C13", "a rejected container operation leaves the container as it was",
@@ -273,8 +286,8 @@ prop("C13", "a rejected container operation leaves the container as it was",
      ["'offset not representable in the length type' needs an item of >= 254 bytes: outside the byte bound"],
      vsteps("refused push/push_slice leave the FlatVec unchanged", quick=("V_U8_st", "V_U16_st"))
      + [H("step::string::str_step", 1800, 12, "every valid FlatString<u8> image <= 6 bytes", "refused push/push_str leave the FlatString unchanged")]
-     + xsteps("refused FlexVec::push leaves the FlexVec unchanged")
-     + [H("step::X_V_st::flexv_step", 3600, 16, "every valid image <= 7 bytes; FlexVec<FlatVec<u8,u8>,u8>", "push refused by the item's emplacer (slot fits, item does not) leaves the FlexVec unchanged", tier="thorough")],
+     + xsteps("refused FlexVec::push leaves the FlexVec unchanged", ops=["push", "push_default"])
+     + xvsteps("push refused by the item's emplacer (slot fits, item does not) leaves the FlexVec unchanged", ops=["push"], tier="quick"),
      STEP_ASSUME)
 
 
@@ -283,13 +296,18 @@ LAYS = ["S_U16", "S_BOOL", "S_BOOL3", "S_SB", "S_SB2", "S_SS1", "S_SS2", "S_SE1"
 LAY = ["V_U8", "V_U8L32", "V_U16", "V_SB", "V_A3", "V_P", "STR8", "STR16", "X_U8", "X_U16", "X_V8L16", "U_S1", "U_S2", "U_S5", "U_S6",
        "U_PS", "U_E1", "U_E2", "U_E3", "U_E4", "U_PE"]
 LAY_SLOW = {"V_SB", "X_V8L16", "STR16", "X_U16"}
+# engine M (lib/mir2smt.py, lib/smt_run.py): generic MIR -> SMT, symbolic SIZE / ALIGN of the field types
+MOBL = ["ceil_mul", "ceil_mul_any_m", "floor_mul", "max", "min", "PosIter_next", "SingleType_min_size", "TwoOrMore_min_size", "TwoOrMore_align",
+        "FlatVec_DATA_OFFSET", "FlatVec_ALIGN", "FlatVec_ptr_from_bytes", "FlatVec_bytes_roundtrip", "FlatVec_size",
+        "FlatString_ptr_from_bytes", "FlexVec_ptr_from_bytes"]
 prop("C04", "computed layout equals the compiler's layout and the C rule",
      "ALIGN, MIN_SIZE and SIZE of every catalogue shape are compared with literals obtained by applying the C layout rule by hand; for every slice length up to the bound the mapped value's align_of_val is ALIGN, size_of_val <= slice length (never claims more bytes), as_bytes == size_of_val. Every field / payload / element offset is pinned by the accept family: content read through the accessors equals content decoded at the reference offsets for all byte strings; the emplace family pins the offsets used by the *Init emplacers the same way.",
-     ["type definitions outside the catalogue (the quantifier over all field-type lists is covered by 41 concrete shapes, not symbolically: the MIR->SMT engine of the design was not built)",
+     ["macro-generated constants (DATA_OFFSET, DATA_MIN_SIZES, LAST_FIELD_OFFSET, MIN_SIZE of #[flat] types) are decided on the 42 concrete shapes only; engine M covers the generic building blocks they are made of (ceil_mul/floor_mul/max/min, PosIter::next, TypeIter::min_size/align, FlatVec/FlatString/FlexVec pointer metadata) for symbolic SIZE <= 65536, ALIGN in {1,2,4,8,16}, lengths <= 2^48",
       "slices longer than the per-shape bound", "alignments above 4"],
      [H("lay::%s_l::layout_sized" % sh, 120, 4, SHAPE_DOC.get(sh, sh), "SIZE == size_of, ALIGN == align_of == reference (constants evaluated by rustc; recorded, not solver-decided)") for sh in LAYS]
      + [H("lay::%s_l::layout" % sh, 900 if sh in LAY_SLOW else 400, 8, "every slice length <= %d and content; %s" % (RO_BOUND[sh], SHAPE_DOC[sh]),
           "ALIGN/MIN_SIZE == reference; align_of_val == ALIGN; size_of_val <= n", tier="thorough" if sh in LAY_SLOW else "quick") for sh in LAY]
+     + [M(n) for n in MOBL]
      + ro("accept", "offsets of fields / enum payloads / container data: accessor content == content at the reference offsets", shapes_quick=["U_S1", "U_S6", "U_E1", "U_E3", "S_SE1", "V_A3"], shapes_thorough=["U_S2", "U_E4", "X_U16"])
      + em("emplace", "offsets used by the generated initialisers == reference offsets", quick=["U_S6", "U_E1"], thorough=["U_S1", "U_E3"]))
 
